@@ -56,3 +56,10 @@ Example C18_ex :
                                                  OMsg authority_address (MUpdateParams 5) []] in
    pass_limit (w_o w5) = 5 /\ rr_out (recv ex_cfg ex_env w5 (ex_packet ex_cctp) []) = OAckOk).
 Proof. vm_compute. repeat split; reflexivity. Qed.
+
+(* ---------- on ANY chain, whatever its Hyperlane hooks charge for gas ---------- *)
+From Orbiter Require Import Proofs.GasHistories.
+Theorem C18_limit_in_force_any_hooks : forall g cfg e ops w,
+  pass_limit (w_o (final_world_gas g cfg e w ops)) = fold_left (limit_after (cfg_authority cfg)) ops (pass_limit (w_o w)).
+Proof. exact limit_in_force_gas. Qed.
+Print Assumptions C18_limit_in_force_any_hooks.
